@@ -170,8 +170,8 @@ Proof. repeat split; reflexivity. Qed.
    with every guard and every return), broadcastEonPublicKey, database.GetKeyperIndex, the two
    medley casts and the field order of p2pmsg.NewSignedEonPublicKey, translated statement by
    statement from the Go source on this run (Generated/EonPKLoop.v; the loop is a fold whose
-   accumulator records an early return, the database result and the mechanisms are explicit
-   parameters), compute what the model computes: a polling tick of the model is the query
+   accumulator records an early return - a `continue` only ends the iteration -, the database
+   result and the mechanisms are explicit parameters), compute what the model computes: a polling tick of the model is the query
    followed by the translated function - same calls in the same order with the same fields,
    same returned error class - for every configuration, every row list and all answers. *)
 From Verif Require Import Generated.EonPKLoop Proofs.EonPKLoop.
@@ -187,7 +187,7 @@ Theorem C20_translated_loop_agrees :
   (forall h d answers,
       step h d OpTickFails = (d, outcome_of_gen (gen_query_and_handle h None answers))) /\
   (forall h j cs0 answers,
-      gen_loop_body h j (cs0, answers) =
+      gen_end_iter (gen_loop_body h j (cs0, answers)) =
       let '(cs, ans', e) := handle_row h j answers in ((cs0 ++ cs, ans'), flow_of_err e)) /\
   (forall h pk st, gen_broadcast_eon_public_key h pk st = gen_env_call (CBroadcast (h_instance h) pk) st) /\
   (forall self ks, snd (gen_get_keyper_index self ks) = is_member self ks) /\
